@@ -13,7 +13,15 @@ Tie to /repo:
   variant of the user's callable is invoked, with or without `out`) is compared with the
   model through instrumented callables; the table of value-dtype classes with np.can_cast and
   the real outcome of nearest_interpolator.
+  (E) end-to-end streams (round 4): `uniform_discr(...).grid`, `Resampling(...)(x)` and
+      `linear_deform(...)` against the model ops `grid` / `resample` / `deform`, which receive only
+      interval, shape, nodes_on_bdry, schemes, values and displacement and compute the grids
+      (`uniformNode`, `uniformNodeBdry`), the range mesh and the displaced points themselves.
 Oracle (independent of the model, on the real code):
+  * e2e: nodes = cell midpoints (resp. equispaced with the requested boundary nodes); results =
+    textbook interpolant at the range midpoints / at x + v(x) computed from the specification
+    alone; same grid / zero displacement = identity; affine data exact inside the hull; nearest
+    resampling to a k-fold refinement = piecewise-constant prolongation;
   * textbook reference with exact Fractions: nearest = closest node, right one on ties,
     clamped outside; linear = multilinear blend of the surrounding nodes, with one ghost
     node of value 0 one cell outside (the documented zero extension); mixed per axis;
@@ -39,7 +47,11 @@ RULE = ('interpolation: api(nearest/linear/per-axis) x dimension 1-3 x per-axis 
         'decimal / large offset 2^12..2^20 strides) x value dtype x calling convention (point/array/mesh, out given or not); '
         'points per axis drawn from nodes, exact midpoints, cell interior, one cell outside '
         '(low/high), far outside. sampling: callable kind x dimension x dtype x input '
-        'convention. A case is non-trivial when the expected output is not constant; distinct = '
+        'convention. end-to-end (e2e/grid, e2e/resample, e2e/deform): uniform_discr grids (default and all four '
+        'nodes_on_bdry combinations, n = 1, 2, > 2), Resampling (uniform / non-uniform domain x coarsen / same / '
+        'refine x schemes x dimension 1-3) and linear_deform (zero / inside / outside displacement) with the model '
+        'computing grids and points from interval, shape and displacement alone, plus cases meeting the '
+        'hypotheses of the round-4 theorems. A case is non-trivial when the expected output is not constant; distinct = '
         'distinct such signatures together with the set of point categories hit.')
 TRUSTED = ['translator tools/extract/interp.py (AST of the edge/weight helpers, nearest rule and '
            '_find_indices -> Gen/InterpEdges.lean; for the nearest rule and _find_indices sound '
@@ -52,6 +64,8 @@ TRUSTED = ['translator tools/extract/interp.py (AST of the edge/weight helpers, 
            'sampling: NumPy assignment/broadcast_to/equal-size reshape (the parameter `fit` of the '
            'dispatch model), np.vectorize; the values produced by sampling are NOT modelled but '
            'compared on the real code with the exact polynomial at every grid point',
+           'end-to-end streams: np.linspace = arange * step + start with the last entry overwritten (exact '
+           'on the dyadic stream), RectGrid.points() = C-order cartesian product, ndarray.T, reshape',
            'python reference oracle in tools/harness/c15.py (exact Fractions)']
 ASSUMPTIONS = ['floating-point rounding is outside the model: on the exact stream all inputs are '
                'few-bit dyadic rationals with points placed at dyadic fractions of a cell, so every '
